@@ -975,7 +975,10 @@ CONFIG["C12"] = dict(
                "UnregisterResend (goodbye repeat per interface AND family: goodbye_repeat_armed) and the interface check is a timer, "
                "and no registry keeps un-armed new_timers - holds for the fresh daemon, is preserved by iter for EVERY input with no "
                "side condition (rTimersCover_iter), hence responder_wake_never_late after every history; the full statement holds "
-               "of the model (no witness against it).",
+               "of the model (no witness against it). Never spinning, responder model: an iteration without input and without "
+               "due work sends nothing and leaves every timer after now (idle_iteration_sleeps); after ANY iteration from ANY "
+               "state at most one further input-free iteration at the same instant has something to do, then every timer lies "
+               "after now (responder_no_spin, after_iteration_quiet).",
     level_note="Trusted: Lean kernel; allowed axioms only; simulation seams (the gate replaces the blocking poll, so the 1 ms "
                "floor of the real poll time-out is not exercised). The two-scheduler comparison is an oracle on the real "
                "code, not a theorem; it covers histories that mix client and responder work in one daemon, which no single "
